@@ -265,8 +265,26 @@ CLAIMED["C05"] = (
     "prototype/arity table agreement, role lint and mirror comparison with flow-sensitive expansion, dependency cones, must-facts, bounded abstract evaluation of builder code over opaque tokens (static analysis)",
     "DESIGN.md section 5, C05",
 )
+CLAIMED["C02"] = (
+    "Structural clauses only; the stride arithmetic of convert-dart-to-snax-stream (bank-width packing, spatial fill-up, dimension "
+    "merging) and of the accelerators' pattern customisation is NOT decided. Decided: (offset) strides are responses of the composed "
+    "affine map minus its response at the origin, that response reaches the operand base pointers, and the tiled-strided layout map "
+    "includes the layout offset (F-26, F-27, fixed); (operand) per-operand sequences - operands, schedule patterns, access patterns, "
+    "template patterns, streamers - are indexed by the loop's own operand index, one result per operand in order, and stride, bound and "
+    "relevance of a dimension are read with one index; (relevance) relevant spatial dimensions are decided from the template pattern of "
+    "that operand and every temporal dimension is relevant; (routing) by bounded abstract evaluation of get_streamers / "
+    "set_stride_patterns over opaque pattern and pointer tokens, for every case the hooks distinguish (gemmx: 2/3/4 operands x i8/i32 "
+    "results, xDMA add extension, identity defaults): position h of the pattern list and of inputs+outputs carries the pattern and the "
+    "pointer of the operand scheduled for hardware streamer h, and the new op uses exactly what the hook returns; (tsl-affine) by abstract "
+    "evaluation with symbolic bounds and steps over the repo's own TSL classes, for every tiling profile of 1-2 dimensions x 1-4 levels: "
+    "the layout map equals offset + sum step*((d mod prod(bounds[depth:])) div prod(bounds[depth+1:])).",
+    "Abstract evaluation is bounded (5 hardware streamers from the module's default configuration, <= 4 tile levels, <= 2 dimensions); "
+    "models of StridePattern / StreamType / AffineDimExpr are the checker's own (structure only); on a streamer shared by several operands "
+    "the first scheduled operand owns pattern and pointer (the add extension's fixed 512-byte second-input stride is taken as given).",
+    "dependency cones, index-agreement lint, bounded abstract evaluation of routing hooks over opaque tokens and of the layout map over symbolic monomials (static analysis)",
+    "DESIGN.md section 5, C02",
+)
 NOT_APPLICABLE = {
-    "C02": "address-stream equality is integer arithmetic over runtime strides/bounds; no structural necessary condition carries weight (DESIGN.md section 5, C02)",
 }
 NOT_BUILT = "check under construction in this session (designed in DESIGN.md section 5); not claimed until its rules run silently on the unchanged tree"
 
